@@ -90,6 +90,7 @@ func (t *tracer) Flush() {
 }
 
 type beh struct {
+	Stress int   `json:"stress"` // > 0: that many goroutines start new RPCs in a tight loop while the first GOAWAY is written
 	NRpc  int    `json:"nrpc"`
 	Mut   int    `json:"mut"`
 	Steps []step `json:"steps"`
@@ -183,6 +184,11 @@ func (sv *server) handle(c net.Conn, isFirst bool) {
 				p.WritePing(true, f.Data)
 			}
 		case *http2.MetaHeadersFrame:
+			if rawh2.Field(f, ":path") == "/s/x" {
+				// the extra RPCs of the GOAWAY stress are answered at once (Trailers-Only), on every connection
+				p.WriteHeaders(f.StreamID, true, ":status", "200", "content-type", "application/grpc", "grpc-status", "0")
+				continue
+			}
 			if isFirst {
 				sv.mu.Lock()
 				if _, dup := sv.sids[rawh2.Field(f, ":path")]; !dup {
@@ -437,7 +443,7 @@ func mutate(frames [][]byte, n int, rng *rand.Rand) ([]byte, []string) {
 
 // ---------------------------------------------------------------------------------------------
 func runBeh(t *testing.T, b beh, idx int, seed int64, tr *tracer) {
-	tr.Emit(ev{"ev": "reset", "b": idx, "nrpc": b.NRpc, "mut": b.Mut})
+	tr.Emit(ev{"ev": "reset", "b": idx, "nrpc": b.NRpc, "mut": b.Mut, "stress": b.Stress})
 	synctest.Test(t, func(t *testing.T) {
 		start := time.Now()
 		lis := bufconn.Listen(1 << 20)
@@ -451,6 +457,7 @@ func runBeh(t *testing.T, b beh, idx int, seed int64, tr *tracer) {
 			t.Fatal(err)
 		}
 		rpcs := []*rpcState{{}, {}}
+		var stressPanic atomic.Bool
 		guard := func(s *rpcState, f func() error) {
 			go func() {
 				var err error
@@ -554,11 +561,42 @@ func runBeh(t *testing.T, b beh, idx int, seed int64, tr *tracer) {
 			done, code := snapshot()
 			tr.Emit(ev{"ev": "raw", "mut": desc, "n": len(data), "done": done, "code": code})
 		} else {
+			goAwaySent := false
 			for _, st := range b.Steps {
 				time.Sleep(time.Second)
-				if !emit(p, st, sidFor(st.R)) {
+				if b.Stress > 0 && !goAwaySent && strings.HasPrefix(st.V, "G_") {
+					// free-running stress: new RPCs are being created on the same ClientConn (NewStream on the same
+					// transport) at the instant the first GOAWAY arrives.  Not gated; a wedge shows up as a hang.
+					var wg sync.WaitGroup
+					var iters atomic.Int64
+					t0 := time.Now()
+					for g := 0; g < b.Stress; g++ {
+						wg.Add(1)
+						go func() {
+							defer wg.Done()
+							defer func() {
+								if r := recover(); r != nil {
+									stressPanic.Store(true)
+								}
+							}()
+							for i := 0; i < 300 && time.Since(t0) < 500*time.Millisecond; i++ {
+								ctx, cancel := context.WithTimeout(context.Background(), 200*time.Millisecond)
+								req, resp := []byte("x"), []byte{}
+								cc.Invoke(ctx, "/s/x", &req, &resp)
+								cancel()
+								iters.Add(1)
+							}
+						}()
+					}
+					for spin := 0; iters.Load() < int64(4*b.Stress) && spin < 1000000; spin++ {
+						runtime.Gosched() // let the starters get going (real scheduling, no virtual time passes)
+					}
+					emit(p, st, sidFor(st.R))
+					wg.Wait()
+				} else if !emit(p, st, sidFor(st.R)) {
 					p.Conn.Close()
 				}
+				goAwaySent = goAwaySent || strings.HasPrefix(st.V, "G_")
 				synctest.Wait()
 				done, code := snapshot()
 				sv.mu.Lock()
@@ -585,6 +623,9 @@ func runBeh(t *testing.T, b beh, idx int, seed int64, tr *tracer) {
 			}
 			rpcs[i].mu.Unlock()
 			dl = append(dl, int(deadlines[i]/time.Millisecond))
+		}
+		if stressPanic.Load() {
+			pan = 1
 		}
 		tr.Emit(ev{"ev": "end", "done": done, "code": code, "ok": oks, "tend": tend, "dl": dl, "panic": pan})
 		// let the keepalive goroutine of a surviving connection go dormant (no active streams) before the close
